@@ -35,7 +35,16 @@ RULE = ("filters built by ZFilter / LinearFilter from coefficient lists, dicts (
         "alive at once, results consumed alternately, the caller's list changed between the call and the reading, "
         "equal coefficients of different types (int / float / ExactQ), short then long inputs; every call must equal "
         "the per-call model on the contents its memory had when the call was made, and the argument objects are "
-        "compared with what the caller put in them after everything was read.")
+        "compared with what the caller put in them after everything was read; a refused call (noncausal / zero "
+        "gain after an item assignment on the live filter) followed by the repaired filter and the same memory "
+        "object; coefficients assigned between a call and the reading of its result (each call is judged on the "
+        "tables the filter had when it was made); the same filter through ZFilter(filt) / LinearFilter(filt) / "
+        "copy(). Number KINDS in the capture family: bool, -0.0, 1e40 / 1e-40 / -1e16 floats (exponent repr), "
+        "10**30 / 2**63 ints as coefficients; False / -0.0 / Fraction(0) zero values. Family cplx: complex "
+        "coefficients (exact Gaussian rationals and native complex: unit modulus 1j, -1j, 0.6+0.8j, 3/5+4/5j, "
+        "real-valued complex 1+0j / -1+0j, zero 0j, general), complex a0, complex samples / memories / zero; holds "
+        "= the difference equation in exact complex arithmetic on the implementation's outputs (CheckC.csat_b), "
+        "corr = ModelC (same generator over Gaussian rationals) incl. the captured text with complex literals.")
 EXHAUSTIVE = {"quick": False, "thorough": True}
 trusted_base = [
   "the generated program text is parsed by harness/C04_parse.py (regular grammar, fail-closed: any unexpected line, "
@@ -44,6 +53,9 @@ trusted_base = [
   "sample values are exact rationals (ExactQ absorbs int / float operands exactly); symbolic samples are affine forms "
   "(LinForm raises on a product of two forms), compared at the origin and at every basis point",
   "constant coefficients only (a Stream coefficient is property C06); integer powers only",
+  "complex cases: C04.ModelC is a transcription of Model.codegen / run_gen over pairs of rationals WITHOUT its own "
+  "theorems; the property is decided on them directly by CheckC.csat_b (the difference equation evaluated on the "
+  "observed outputs), harness/C04_cq.CQ is the exact complex number fed to the library",
 ]
 ASSUMPTIONS = ["CPython semantics of exec / generators / tuple unpacking / chained assignment as documented",
                "str.format of int, float (repr round-trips) and ExactQ ('_Q(n,d)', injected in builtins by vlib.exactq)"]
@@ -74,6 +86,12 @@ def coef_obj(c):
     return f
   if kind == "F":
     return v
+  if kind == "b":           # bool coefficient: True == 1, False == 0
+    assert v in (0, 1)
+    return bool(v)
+  if kind == "z":           # negative zero
+    assert v == 0
+    return -0.0
   raise ValueError(kind)
 
 
@@ -174,6 +192,10 @@ def _zero_obj(zr):
     return float(v)
   if kind == "frac":
     return v
+  if kind == "bool":
+    return bool(v)
+  if kind == "negzero":
+    return -0.0
   return ExactQ(v)
 
 
@@ -300,6 +322,11 @@ def build_filter(c, res):
     cls = getattr(audiolazy, b.get("cls", "ZFilter"))
     num, den = arg_obj(b["num"]), arg_obj(b["den"])
     flt = cls(num) if (den is None and b.get("one_arg")) else cls(num, den)
+    via = b.get("via")
+    if via == "cast":            # LinearFilter(filt) / ZFilter(filt): "filter type cast"
+      flt = getattr(audiolazy, b.get("cast_cls", "ZFilter"))(flt)
+    elif via == "copy":
+      flt = flt.copy()
   for which, k, cf in c.get("tamper", []):
     (flt.numpoly if which == "num" else flt.denpoly)[int(k)] = coef_obj(cf)
   return flt
@@ -333,6 +360,8 @@ def execute(subs, sched=None):
     return orig(data, expr, *args, **kwargs)
 
   boxes, streams, xlists, iters = {}, {}, {}, {}
+  live_tampers = [list(c.get("tamper", [])) for c in subs]
+  refused_clean = [True]
   lf._exec_eval = recorder
   try:
     for op in sched:
@@ -340,9 +369,14 @@ def execute(subs, sched=None):
       flt, c = filters[s], subs[s]
       if flt is None:
         continue
-      run, o = c["runs"][r], results[s]["runs"][r]
+      run, o = (c["runs"][r], results[s]["runs"][r]) if r is not None else (None, None)
+      if kind == "setitem":       # ["setitem", s, None, which, k, coef]: numpoly[k] = v / denpoly[k] = v on the live filter
+        (flt.numpoly if op[3] == "num" else flt.denpoly)[int(op[4])] = coef_obj(op[5])
+        live_tampers[s].append([op[3], op[4], op[5]])
+        continue
       if kind == "call":
         del captured[:]
+        o["tampers_before"] = list(live_tampers[s])
         conv = native if run.get("xkind") == "native" else (lambda v: v)
         xs = [conv(_sample(v, True)) for v in run["xs"]]
         xlists[(s, r)] = (xs, list(xs))
@@ -366,6 +400,8 @@ def execute(subs, sched=None):
         except Exception as e:
           o["raise"] = [1, type(e).__name__]
           del o["out"]
+          if box.current() != seen:        # a refused call must not have consumed / changed its memory argument
+            refused_clean[0] = False
         if len(captured) == 0:
           o["prog"] = None
         elif len(captured) == 1 and captured[0][1] == "gen":
@@ -396,7 +432,8 @@ def execute(subs, sched=None):
           box.expected[op[3]] = _sample(op[4], True)
   finally:
     lf._exec_eval = orig
-  intact = all(b.intact() for b in boxes.values()) and all(xs == keep for xs, keep in xlists.values())
+  intact = all(b.intact() for b in boxes.values()) and all(xs == keep for xs, keep in xlists.values()) \
+           and refused_clean[0]
   for res in results:
     for o in res["runs"]:
       o.pop("done", None)
@@ -660,7 +697,8 @@ def gen_call(tier, rng):
     az = is_allzero(num, den) or bool(tam)
     lm = lm_guess(num, den)
     yield {"build": {"kind": "args", "num": num, "den": den, "cls": rng.choice(["ZFilter", "LinearFilter"]),
-                     "one_arg": rng.random() < 0.5},
+                     "one_arg": rng.random() < 0.5, "via": rng.choice([None, None, None, None, "cast", "copy"]),
+                     "cast_cls": rng.choice(["ZFilter", "LinearFilter"])},
            "tamper": tam, "sym": sym,
            "runs": [mk_run(rng, lm, sym, az, nmax=8 if lm < 6 else 16, coefq=(kind == "q"))
                     for _ in range(rng.choice([1, 1, 2]))],
@@ -678,6 +716,21 @@ def gen_call(tier, rng):
                       ln=rng.choice([D, D, D, D + 1, D - 1]))
     yield {"build": {"kind": "args", "num": num, "den": den, "cls": rng.choice(["ZFilter", "LinearFilter"])},
            "tamper": [], "sym": sym, "runs": [r], "tags": ["long", "sym" if sym else "num", "order=%d" % D]}
+  # ---- (2c) number kinds: bool, negative zero, huge / tiny floats, big ints, as coefficients and as zero value
+  special = [["b", 1, 1], ["b", 0, 1], ["z", 0, 1], mk_coef("f", Fraction(1e40)), mk_coef("f", Fraction(1e-40)),
+             mk_coef("f", Fraction(-1e16)), mk_coef("f", Fraction(123456789.125)), ["i", 10 ** 30, 1],
+             ["i", -10 ** 30, 1], mk_coef("f", Fraction(-1.0)), mk_coef("f", Fraction(1.0)), ["i", -1, 1], ["i", 1, 1],
+             mk_coef("f", Fraction(-2.5e-07)), mk_coef("q", Fraction(1, 3)), ["i", 2 ** 63, 1], ["i", -2 ** 63, 1]]
+  zkinds = ZEROS + [["bool", fr(0)], ["negzero", fr(0)], ["frac", fr(0)]]   # (a non-zero native zero would add floats natively)
+  for i in range(60 if quick else 600):
+    num = ["list", [rng.choice(special) for _ in range(rng.randrange(0, 4))]]
+    a0 = rng.choice([c for c in special if coef_val(c) != 0])
+    den = ["list", [a0] + [rng.choice(special) for _ in range(rng.randrange(0, 3))]]
+    r = mk_run(rng, lm_guess(num, den), False, False)
+    r["zero"] = rng.choice(zkinds)
+    r.pop("argstyle", None)
+    yield {"build": {"kind": "list", "num": num, "den": den, "cls": rng.choice(["ZFilter", "LinearFilter"])},
+           "tamper": [], "sym": False, "runs": [r], "tags": ["kinds", "num"]}
   # ---- (3) the refusals, systematically: assignments that zero a0 / add a negative power
   for num, den, tam in [
       ([1, 1], [1, -1], [["den", 0, 0]]), ([1], [2], [["den", 0, 0]]), ([1, 2], [1, 1, 1], [["den", 0, 0], ["num", -1, 1]]),
@@ -852,7 +905,8 @@ def gen_hist(tier, rng):
   orders = [1, 2, 3, 5, 47, 48, 49, 64]
   for i in range(n):
     order = rng.choice(orders)
-    shape = rng.choice(["same-list", "same-list", "two-filters", "mutate", "types", "short-long", "share-iter"])
+    shape = rng.choice(["same-list", "same-list", "two-filters", "mutate", "types", "short-long", "share-iter", "refused",
+                        "live-coef"])
     xs_n = rng.choice([3, 5, 8])
     mkx = lambda k, off=0: [fr(XVALS[(off + j) % len(XVALS)] + j // len(XVALS)) for j in range(k)]
     memvals = [fr(Fraction(7 * (j + 1) % 13 - 6, (j % 2) + 1)) for j in range(order + 2)]
@@ -901,6 +955,33 @@ def gen_hist(tier, rng):
       subs = [{"build": {"kind": "args", "num": num, "den": den, "cls": "ZFilter"}, "tamper": [], "sym": False,
                "runs": [mkrun(mem(), k=2), mkrun(mem(), k=9, off=1), mkrun(mem(), k=1, off=3)]}]
       sched = rng.choice([None, _interleave(rng, [(0, 0), (0, 1), (0, 2)], 2)])
+    elif shape in ("refused", "live-coef"):
+      o3 = min(order, 3)
+      num, den = _hist_filter(rng, o3)
+      via = rng.choice([None, None, "cast", "copy"])
+      mk = rng.choice(["list", "track", "deque", "none"])
+      m0 = [mk, memvals[:o3 + 1]] if mk != "none" else ["none"]
+      runs = [mkrun(m0), mkrun(m0 if mk == "none" else [mk, []], off=1), mkrun(m0 if mk == "none" else [mk, []], off=2)]
+      if mk != "none":
+        runs[1]["mem_share"] = [0, 0]
+        runs[2]["mem_share"] = [0, 0]
+      subs = [{"build": {"kind": "args", "num": num, "den": den, "cls": "ZFilter", "via": via,
+                         "cast_cls": rng.choice(["ZFilter", "LinearFilter"])},
+               "tamper": [], "sym": False, "runs": runs}]
+      cq_ = lambda v: mk_coef("q", v)
+      a0 = [c for k, c in den[1] if k == 0][0]
+      if shape == "refused":        # (g) a refused call leaves filter and arguments usable
+        bad, good = rng.choice([(["num", -1, cq_(2)], ["num", -1, cq_(0)]), (["den", 0, cq_(0)], ["den", 0, a0]),
+                                (["den", -2, cq_(1)], ["den", -2, cq_(0)])])
+        sched = [["call", 0, 0], ["read", 0, 0], ["setitem", 0, None] + bad, ["call", 0, 1], ["read", 0, 1],
+                 ["setitem", 0, None] + good, ["call", 0, 2], ["read", 0, 2]]
+      else:                         # (h) coefficients assigned between the call and the reading of its result
+        chg = [rng.choice(["num", "den"]), rng.choice([0, 1, o3, 5]), cq_(rng.choice([Fraction(7, 2), Fraction(-1), Fraction(1), Fraction(0)]))]
+        if chg[0] == "den" and chg[1] == 0 and coef_val(chg[2]) == 0:
+          chg[2] = cq_(3)
+        sched = [["call", 0, 0], ["pull", 0, 0, rng.choice([0, 1, 2])], ["setitem", 0, None] + chg,
+                 ["call", 0, 1], ["pull", 0, 1, 1], ["read", 0, 0], ["setitem", 0, None] + [chg[0], chg[1], cq_(Fraction(5, 4))],
+                 ["read", 0, 1], ["call", 0, 2], ["read", 0, 2]]
     else:                           # one plain iterator given as memory to two calls: the second gets what is left
       num, den = _hist_filter(rng, min(order, 5))
       o5 = min(order, 5)
@@ -917,11 +998,195 @@ def run_hist(c):
 
 
 def lit_hist(c, o):
-  return "(HC %s %s)" % (L.lst([lit_call(sc, so) for sc, so in zip(c["subs"], o["subs"])]), L.boolean(o["intact"]))
+  """one ccase per call: the filter tables are those at the moment of that call (constructor arguments + every
+  item assignment made on the live object before it)"""
+  lits = []
+  for sc, so in zip(c["subs"], o["subs"]):
+    if so.get("init") is not None or not so["runs"]:
+      lits.append(lit_call(sc, so))
+      continue
+    for r, ro in zip(sc["runs"], so["runs"]):
+      if not ro:
+        continue       # a call the schedule never made
+      lits.append(lit_call(dict(sc, runs=[r], tamper=ro.get("tampers_before", sc.get("tamper", []))), dict(so, runs=[ro])))
+  return "(HC %s %s)" % (L.lst(lits), L.boolean(o["intact"]))
 
 
 def nontrivial_hist(c, o):
   return sum(len(sc["runs"]) for sc in c["subs"]) >= 2 or any(op[0] == "mutate" for op in (c["sched"] or []))
+
+
+# ----------------------------------------------------------------------------- complex numbers (Gaussian rationals)
+from C04_cq import CQ, parts as cparts
+
+UNIT = [("C", 0, 1), ("C", 0, -1), ("C", Fraction(3, 5), Fraction(4, 5)), ("c", 0.0, 1.0), ("c", 0.0, -1.0),
+        ("c", 0.6, 0.8), ("c", 0.8, -0.6), ("c", -1.0, 0.0), ("c", 1.0, 0.0), ("C", Fraction(-5, 13), Fraction(12, 13)),
+        ("C", 1, 0), ("C", -1, 0), ("r", 1, 0), ("r", -1, 0)]
+OTHER = [("C", 0, 2), ("C", 1, 1), ("C", Fraction(1, 2), Fraction(-3, 4)), ("c", 2.0, -1.0), ("c", 0.0, -3.0),
+         ("r", 2, 0), ("C", 0, 0), ("c", 0.0, 0.0), ("c", 0.5, 0.5), ("C", Fraction(3, 5), Fraction(4, 5) + 1)]
+
+
+def cplx_obj(v):
+  kind, re_, im_ = v
+  if kind == "C":
+    return CQ(unfr(re_), unfr(im_))
+  if kind == "c":
+    return complex(float(unfr(re_)), float(unfr(im_)))
+  v = unfr(re_)            # real kind: a native int (ExactQ does not combine with a native complex)
+  return int(v) if v.denominator == 1 else CQ(v, 0)
+
+
+def cplx_json(t):
+  kind, re_, im_ = t
+  return [kind, fr(Fraction(re_)), fr(Fraction(im_))]
+
+
+def cq_lit(p):
+  return "(%s, %s)" % (q(p[0]), q(p[1]))
+
+
+def parts_json(v):
+  p = cparts(v)
+  if p is None:
+    raise ValueError("not an exact complex number: %r" % (v,))
+  return [fr(p[0]), fr(p[1])]
+
+
+def gen_cplx(tier, rng):
+  n = 220 if tier == "quick" else 2500
+  for i in range(n):
+    exactc = rng.random() < 0.5          # all coefficients exact (CQ / ExactQ): samples may then be native complex
+    pool = [t for t in UNIT + OTHER if not (exactc and t[0] == "c")]
+    pick = lambda unit: cplx_json(rng.choice([t for t in pool if (t in UNIT) == unit] or pool))
+    nb, na = rng.randrange(0, 4), rng.randrange(0, 3)
+    b = [pick(rng.random() < 0.6) for _ in range(nb)]
+    a0 = pick(rng.random() < 0.5)
+    while unfr(a0[1]) == 0 and unfr(a0[2]) == 0:
+      a0 = pick(True)
+    a = [a0] + [pick(rng.random() < 0.6) for _ in range(na)]
+    if rng.random() < 0.25:              # sparse dicts, higher delays
+      num = ["dict", [[k, c] for k, c in zip(sorted(rng.sample(range(0, 9), len(b))), b)]]
+      den = ["dict", [[0, a[0]]] + [[k, c] for k, c in zip(sorted(rng.sample(range(1, 9), len(a) - 1)), a[1:])]]
+    else:
+      num, den = ["list", b], ["list", a]
+    runs = []
+    for _ in range(rng.choice([1, 2])):
+      k = rng.choice([0, 1, 3, 4, 6])
+      skind = "c" if exactc and rng.random() < 0.3 else "C"
+      xs = [[skind, fr(rng.randrange(-4, 5)), fr(rng.randrange(-4, 5))] if skind == "c" else
+            ["C", fr(Fraction(rng.randrange(-6, 7), rng.choice([1, 2, 3]))), fr(Fraction(rng.randrange(-6, 7), rng.choice([1, 2])))]
+            for _ in range(k)]
+      lm = max([0] + [kk for kk, c in (den[1] if den[0] == "dict" else enumerate(den[1]))])
+      mk = rng.choice(["none", "list", "list", "tuple", "gen", "stream", "deque"])
+      ln = rng.choice([lm, lm, lm + 1, max(0, lm - 1)])
+      mem = ["none"] if mk == "none" else [mk, [["C", fr(Fraction(j + 1, 2)), fr(Fraction(-j - 2, 3))] for j in range(ln)]]
+      zero = rng.choice([["C", fr(0), fr(0)], ["r", fr(0), fr(0)], ["C", fr(Fraction(5, 3)), fr(-2)], ["c", fr(0), fr(0)],
+                         ["c", fr(2), fr(1)] if exactc else ["c", fr(0), fr(0)]])   # native x native would be float arithmetic
+      runs.append({"mem": mem, "zero": zero, "xs": xs})
+    yield {"num": num, "den": den, "cls": rng.choice(["ZFilter", "LinearFilter"]), "runs": runs,
+           "tags": ["cplx", "exact-coef" if exactc else "native-coef"]}
+
+
+def run_cplx(c):
+  import collections
+  import audiolazy
+  import audiolazy.lazy_filters as lf
+  mk = lambda a: ([cplx_obj(v) for v in a[1]] if a[0] == "list" else
+                  collections.OrderedDict((k, cplx_obj(v)) for k, v in a[1]))
+  res = {"init": None, "runs": []}
+  try:
+    flt = getattr(audiolazy, c["cls"])(mk(c["num"]), mk(c["den"]))
+    res["num_data"] = [[int(k), parts_json(v)] for k, v in flt.numpoly._data.items()]
+    res["den_data"] = [[int(k), parts_json(v)] for k, v in flt.denpoly._data.items()]
+  except Exception as e:
+    res["init"] = type(e).__name__
+    return res
+  captured = []
+  orig = lf._exec_eval
+
+  def recorder(data, expr, *args, **kwargs):
+    captured.append([data, expr])
+    return orig(data, expr, *args, **kwargs)
+
+  lf._exec_eval = recorder
+  try:
+    for r in c["runs"]:
+      del captured[:]
+      xs = [cplx_obj(v) for v in r["xs"]]
+      m = r["mem"]
+      vals = [cplx_obj(v) for v in m[1]] if m[0] != "none" else None
+      mem = {"none": lambda: None, "list": lambda: list(vals), "tuple": lambda: tuple(vals),
+             "gen": lambda: (v for v in vals), "stream": lambda: audiolazy.Stream(vals),
+             "deque": lambda: collections.deque(vals)}[m[0]]()
+      o, out = {}, []
+      try:
+        stream = flt(xs, memory=mem, zero=cplx_obj(r["zero"]))
+      except Exception as e:
+        o["raise"] = [1, type(e).__name__]
+        stream = None
+      if stream is not None:
+        try:
+          for v in stream:
+            out.append(parts_json(v))
+            if len(out) > len(xs) + 3:
+              break
+          o["out"] = out
+        except Exception as e:
+          o["raise"] = [2 if not out else 3, type(e).__name__]
+      if len(captured) == 0:
+        o["prog"] = None
+      elif len(captured) == 1 and captured[0][1] == "gen":
+        o["text"] = captured[0][0]
+        o["prog"] = parse_program(captured[0][0], complex_ok=True)
+      else:
+        o["prog"] = {"error": "several programs"}
+      res["runs"].append(o)
+  finally:
+    lf._exec_eval = orig
+  return res
+
+
+def cprog_lit(p):
+  if p is None:
+    return "CNoProg"
+  if "error" in p:
+    return "CUnparsed"
+  if "zero" in p:
+    return "(CCaptured (CPZero %s))" % cq_lit(p["zero"])
+  terms = []
+  for t in p["terms"]:
+    name = {"D": "CD", "NegD": "CNegD", "M": "CM", "NegM": "CNegM", "CoefD": "CCoefD", "NegCoefM": "CNegCoefM"}[t[0]]
+    terms.append("%s %s" % (name, L.nat(t[1])) if len(t) == 2 else "%s %s %s" % (name, cq_lit(t[2]), L.nat(t[1])))
+  g = p["gain"]
+  gain = {"one": "CGOne", "neg": "CGNeg"}.get(g[0]) or "(CGDiv %s)" % cq_lit(g[1])
+  pairs = lambda l: L.lst(["(%s, %s)" % (L.nat(i), L.nat(j)) for i, j in l])
+  return "(CCaptured (CPGen (Prog %s %s %s GOne %s %s) %s))" % (
+    L.lst([L.nat(i) for i in p["mvars"]]), L.lst([L.nat(i) for i in p["dvars"]]),
+    L.lst(terms), pairs(p["mshift"]), pairs(p["dshift"]), gain)
+
+
+def lit_cplx(c, o):
+  if o.get("init") is not None:     # not generated on purpose: a constructor failure can never agree
+    return "(XC [] [] [XRun None c0 [] CUnparsed (CRaise 0 %s)])" % L.string(o["init"])
+  tab = lambda d: L.lst(["(%s, %s)" % (L.z(k), cq_lit(v)) for k, v in d])
+  val = lambda v: cq_lit([v[1], v[2]])
+  runs = []
+  for r, ro in zip(c["runs"], o["runs"]):
+    mem = "None" if r["mem"][0] == "none" else "(Some %s)" % L.lst([val(v) for v in r["mem"][1]])
+    if "out" in ro:
+      ob = "(COut %s)" % L.lst([cq_lit(v) for v in ro["out"]])
+    else:
+      ob = "(CRaise %s %s)" % (L.nat(ro["raise"][0]), L.string(ro["raise"][1]))
+    runs.append("(XRun %s %s %s %s %s)" % (mem, val(r["zero"]), L.lst([val(v) for v in r["xs"]]),
+                                           cprog_lit(ro.get("prog")), ob))
+  return "(XC %s %s %s)" % (tab(o["num_data"]), tab(o["den_data"]), L.lst(runs))
+
+
+def nontrivial_cplx(c, o):
+  if o.get("init") is not None:
+    return False
+  cplx = any(v[1][1][0] != 0 for v in o["num_data"] + o["den_data"])
+  return cplx and any("out" in ro and len(ro["out"]) >= 3 for ro in o["runs"])
 
 
 IMPORTS = "From AL Require Import C04.Model C04.Spec C04.Check."
@@ -929,5 +1194,7 @@ FAMILIES = {
   "call": Family("call", IMPORTS, "ccase", "corr_call", "holds_call", gen_call, run_call, lit_call, nontrivial_call),
   "frac": Family("frac", IMPORTS, "ccase", "corr_call", "holds_call", gen_frac, run_call, lit_call, nontrivial_call,
                  known_frac),
+  "cplx": Family("cplx", "From AL Require Import C04.Model C04.ModelC C04.CheckC.", "xcase", "corr_cplx", "holds_cplx",
+                 gen_cplx, run_cplx, lit_cplx, nontrivial_cplx),
   "hist": Family("hist", IMPORTS, "hcase", "corr_hist", "holds_hist", gen_hist, run_hist, lit_hist, nontrivial_hist),
 }
